@@ -612,6 +612,8 @@ impl<'a> VisitMut for AssocResolver<'a> {
 
 struct Table {
     keys: BTreeSet<String>,
+    /// method name -> keys of functions with a `self` receiver (for the call graph only; never used for effects)
+    methods: BTreeMap<String, Vec<String>>,
 }
 
 impl Table {
@@ -657,6 +659,7 @@ struct Effects<'a> {
     clients: BTreeSet<String>,
     primitive: bool,
     callees: BTreeSet<String>,
+    method_callees: BTreeSet<String>,
     unknown_env_calls: BTreeSet<String>,
     extern_effectful: &'a BTreeSet<String>,
 }
@@ -674,6 +677,11 @@ impl<'ast, 'a> Visit<'ast> for Effects<'a> {
     }
     fn visit_expr_method_call(&mut self, mc: &'ast ExprMethodCall) {
         let m = mc.method.to_string();
+        if let Some(ks) = self.table.methods.get(&m) {
+            for k in ks {
+                self.method_callees.insert(k.clone());
+            }
+        }
         if let Some((_, d)) = storage_chain(&mc.receiver) {
             if STORE_MUT.contains(&m.as_str()) || (m == "extend_ttl" && d == "temporary") {
                 self.primitive = true;
@@ -1837,9 +1845,16 @@ fn main() {
             }
         }
     }
-    let table = Table { keys: selected.iter().map(|f| f.key.clone()).collect() };
-    let all_table = Table { keys: c.fns.iter().filter(|f| !f.in_trait_decl).map(|f| f.key.clone()).collect() };
+    let mut sel_methods: BTreeMap<String, Vec<String>> = BTreeMap::new();
+    for f in selected.iter() {
+        if f.sig.receiver().is_some() {
+            sel_methods.entry(f.sig.ident.to_string()).or_default().push(f.key.clone());
+        }
+    }
+    let table = Table { keys: selected.iter().map(|f| f.key.clone()).collect(), methods: sel_methods };
+    let all_table = Table { keys: c.fns.iter().filter(|f| !f.in_trait_decl).map(|f| f.key.clone()).collect(), methods: BTreeMap::new() };
     let mut unselected: BTreeMap<String, BTreeSet<String>> = BTreeMap::new();
+    let mut mcalls: BTreeMap<String, BTreeSet<String>> = BTreeMap::new();
     let aliases: BTreeMap<String, String> =
         job["aliases"].as_object().map(|m| m.iter().map(|(k, v)| (k.clone(), v.as_str().unwrap().to_string())).collect()).unwrap_or_default();
     let rename_calls: BTreeMap<String, String> = job["rename_calls"]
@@ -1890,6 +1905,7 @@ fn main() {
             clients: BTreeSet::new(),
             primitive: false,
             callees: BTreeSet::new(),
+            method_callees: BTreeSet::new(),
             unknown_env_calls: BTreeSet::new(),
             extern_effectful: &extern_effectful,
         };
@@ -1897,6 +1913,7 @@ fn main() {
         if ef.primitive || force_effectful.contains(&f.key) {
             prim.insert(f.key.clone());
         }
+        mcalls.insert(f.key.clone(), ef.method_callees.clone());
         calls.insert(f.key.clone(), ef.callees);
         // calls that resolve to a function of the given files which was NOT selected (e.g. a helper added by an edit)
         {
@@ -1908,6 +1925,7 @@ fn main() {
                 clients: BTreeSet::new(),
                 primitive: false,
                 callees: BTreeSet::new(),
+            method_callees: BTreeSet::new(),
                 unknown_env_calls: BTreeSet::new(),
                 extern_effectful: &extern_effectful,
             };
@@ -2025,7 +2043,7 @@ fn main() {
             "params": params, "ret": ret, "effectful": eff, "env_params": envs.iter().collect::<Vec<_>>(),
             "body": body, "n_loops": rw.loops, "n_closures": rw.diverge,
             "src_sha": sha(&f.src_text), "out_sha": sha(&body), "rule_sites": rw.sites,
-            "callees": calls[&f.key], "unknown_env_calls": unknown.get(&f.key), "unselected_callees": unselected.get(&f.key),
+            "callees": calls[&f.key], "unknown_env_calls": unknown.get(&f.key), "unselected_callees": unselected.get(&f.key), "method_callees": mcalls.get(&f.key),
         }));
     }
     let _ = quote!();
